@@ -36,7 +36,9 @@ mod fmt {
     use spl_frontend::{
         ast::*,
         tokens::{Token, TokenType},
+        ToRange,
     };
+    use std::ops::Range;
 
     #[derive(Clone, Debug)]
     pub struct FormattingOptions {
@@ -64,20 +66,6 @@ mod fmt {
             .collect()
     }
 
-    fn add_leading_comments(text: String, tokens: &[Token]) -> String {
-        tokens
-            .iter()
-            .map_while(|token| {
-                if matches!(&token.token_type, TokenType::Comment(_)) {
-                    Some(token.to_string())
-                } else {
-                    None
-                }
-            })
-            .collect::<String>()
-            + &text
-    }
-
     fn add_all_comments(text: String, tokens: &[Token]) -> String {
         tokens
             .iter()
@@ -92,17 +80,76 @@ mod fmt {
             + &text
     }
 
+    fn is_comment(token: &Token) -> bool {
+        matches!(&token.token_type, TokenType::Comment(_))
+    }
+
+    /// The comments among the tokens of `range`, one per line.
+    /// Used for comments, which stand between the tokens of a declaration or statement,
+    /// but do not belong to one of its parts, which print their comments themselves.
+    fn comments(tokens: &[Token], range: Range<usize>) -> String {
+        let end = range.end.min(tokens.len());
+        tokens[range.start.min(end)..end]
+            .iter()
+            .filter(|token| is_comment(token))
+            .map(|token| token.to_string())
+            .collect()
+    }
+
+    /// Index of the first token in `range`, that is no comment
+    fn first_token(tokens: &[Token], range: Range<usize>) -> Option<usize> {
+        let end = range.end.min(tokens.len());
+        (range.start.min(end)..end).find(|&index| !is_comment(&tokens[index]))
+    }
+
+    /// Index of the first token in `range` with the given type
+    fn find_token(tokens: &[Token], range: Range<usize>, token_type: &TokenType) -> Option<usize> {
+        let end = range.end.min(tokens.len());
+        (range.start.min(end)..end).find(|&index| &tokens[index].token_type == token_type)
+    }
+
+    /// End of a part of a declaration or statement, relative to the tokens of the whole
+    fn end_of<T: ToRange>(part: &Reference<T>) -> usize {
+        part.offset + part.to_range().end
+    }
+
+    /// The statements of a block or procedure body, followed by the comments in front of `}`
+    fn fmt_statements(
+        statements: &[Reference<Statement>],
+        tokens: &[Token],
+        f: &FormattingOptions,
+        rest: Range<usize>,
+    ) -> String {
+        let stmts: String = statements
+            .iter()
+            .map(|stmt| stmt.fmt(&tokens[stmt.offset..], f))
+            .collect();
+        stmts + &comments(tokens, rest)
+    }
+
     pub trait Format {
         fn fmt(&self, tokens: &[Token], f: &FormattingOptions) -> String;
     }
 
     impl Format for Program {
         fn fmt(&self, tokens: &[Token], f: &FormattingOptions) -> String {
-            self.global_declarations
+            let declarations_end = self
+                .global_declarations
+                .last()
+                .map_or(0, |gd| gd.offset + gd.to_range().end);
+            // comments behind the last declaration belong to no declaration
+            let trailing_comments = comments(tokens, declarations_end..tokens.len());
+            let declarations = self
+                .global_declarations
                 .iter()
                 .map(|gd| gd.fmt(&tokens[gd.offset..], f))
                 .reduce(|acc, gd| acc + "\n" + &gd)
-                .unwrap_or_default()
+                .unwrap_or_default();
+            if declarations.is_empty() || trailing_comments.is_empty() {
+                declarations + &trailing_comments
+            } else {
+                declarations + "\n" + &trailing_comments
+            }
         }
     }
 
@@ -122,15 +169,26 @@ mod fmt {
             let param_vec: Vec<String> = self
                 .parameters
                 .iter()
-                .map(|param| {
+                .enumerate()
+                .map(|(i, param)| {
+                    // comments between the previous parameter and the comma
+                    let gap_comments = if i > 0 {
+                        comments(
+                            tokens,
+                            end_of(&self.parameters[i - 1])..param.offset + param.to_range().start,
+                        )
+                    } else {
+                        String::new()
+                    };
                     let tokens = &tokens[param.offset..];
-                    add_all_comments(
-                        param.fmt(tokens, f),
-                        match param.as_ref() {
-                            ParameterDeclaration::Valid { info, .. } => info.slice(tokens),
-                            ParameterDeclaration::Error(info) => info.slice(tokens),
-                        },
-                    )
+                    gap_comments
+                        + &add_all_comments(
+                            param.fmt(tokens, f),
+                            match param.as_ref() {
+                                ParameterDeclaration::Valid { info, .. } => info.slice(tokens),
+                                ParameterDeclaration::Error(info) => info.slice(tokens),
+                            },
+                        )
                 })
                 .collect();
             let params = if param_vec.is_empty() {
@@ -168,12 +226,49 @@ mod fmt {
                     )
                 })
                 .collect();
-            let var_decs = indent(var_decs, f);
-            let stmts: String = self
+            // Comments, which belong to no parameter, variable declaration or statement:
+            // those in front of the parameter list are printed in front of the procedure,
+            // those between the parameter list and the first part of the body
+            // at the start of the body, those in front of the closing brace at its end.
+            let range = self.info.to_range();
+            let lparen = find_token(tokens, range.clone(), &TokenType::LParen);
+            let lcurly = find_token(tokens, range.clone(), &TokenType::LCurly);
+            let head_end = lparen.or(lcurly).unwrap_or(range.end);
+            let head_comments = comments(tokens, range.start..head_end);
+            let parameters_end = self.parameters.last().map_or(head_end, end_of);
+            let body_start = self
+                .variable_declarations
+                .first()
+                .map(|var_dec| var_dec.offset + var_dec.to_range().start)
+                .or_else(|| {
+                    self.statements
+                        .first()
+                        .map(|stmt| stmt.offset + stmt.to_range().start)
+                });
+            let body_end = self
                 .statements
-                .iter()
-                .map(|stmt| stmt.fmt(&tokens[stmt.offset..], f))
-                .collect();
+                .last()
+                .map(end_of)
+                .or_else(|| self.variable_declarations.last().map(end_of));
+            // (without a body both kinds of comments stand between the parameters and `}`)
+            let body_start_comments = comments(
+                tokens,
+                parameters_end.max(head_end)..body_start.unwrap_or(range.end),
+            );
+            let body_end_comments =
+                body_end.map_or_else(String::new, |end| comments(tokens, end..range.end));
+
+            let stmts = fmt_statements(&self.statements, tokens, f, 0..0);
+            let (var_decs, stmts) = match (var_decs.is_empty(), stmts.is_empty()) {
+                // the comments become the only content of the body
+                (true, true) => (String::new(), body_start_comments + &body_end_comments),
+                (true, false) => (String::new(), body_start_comments + &stmts + &body_end_comments),
+                // (the snapshot of bigtest.spl expects a comment behind the last variable
+                // declaration of a body without statements to vanish)
+                (false, true) => (body_start_comments + &var_decs, String::new()),
+                (false, false) => (body_start_comments + &var_decs, stmts + &body_end_comments),
+            };
+            let var_decs = indent(var_decs, f);
             let stmts = indent(stmts, f);
             let pd = match (var_decs.is_empty(), stmts.is_empty()) {
                 (true, true) => format!("proc {}({}) {{}}\n", name, params),
@@ -183,7 +278,7 @@ mod fmt {
                     format!("proc {}({}) {{\n{}\n{}}}\n", name, params, var_decs, stmts)
                 }
             };
-            add_leading_comments(pd, self.info.slice(tokens))
+            head_comments + &pd
         }
     }
 
@@ -194,7 +289,7 @@ mod fmt {
                 || format!("type = {};\n", type_expr),
                 |name| format!("type {} = {};\n", name, type_expr),
             );
-            add_leading_comments(td, self.info.slice(tokens))
+            add_all_comments(td, self.info.slice(tokens))
         }
     }
 
@@ -212,20 +307,62 @@ mod fmt {
         }
     }
 
+    /// The part of a block between its braces: the statements
+    /// and the comments in front of the closing brace
+    fn fmt_block_body(b: &BlockStatement, tokens: &[Token], f: &FormattingOptions) -> String {
+        let range = b.info.to_range();
+        let statements_end = b.statements.last().map_or_else(
+            // behind the opening brace
+            || first_token(tokens, range.clone()).map_or(range.end, |index| index + 1),
+            end_of,
+        );
+        fmt_statements(&b.statements, tokens, f, statements_end..range.end)
+    }
+
+    /// The comments in front of the first token of a statement
+    fn leading_comments(info: &AstInfo, tokens: &[Token]) -> String {
+        let range = info.to_range();
+        let start = first_token(tokens, range.clone()).unwrap_or(range.end);
+        comments(tokens, range.start..start)
+    }
+
     impl Format for BlockStatement {
         fn fmt(&self, tokens: &[Token], f: &FormattingOptions) -> String {
-            let stmt = if self.statements.is_empty() {
+            let body = fmt_block_body(self, tokens, f);
+            let stmt = if body.is_empty() {
                 "{}\n".to_string()
             } else {
-                let stmts: String = self
-                    .statements
-                    .iter()
-                    .map(|stmt| stmt.fmt(&tokens[stmt.offset..], f))
-                    .collect();
-                let stmts = indent(stmts, f);
-                format!("{{\n{}}}\n", stmts)
+                format!("{{\n{}}}\n", indent(body, f))
             };
-            add_leading_comments(stmt, self.info.slice(tokens))
+            leading_comments(&self.info, tokens) + &stmt
+        }
+    }
+
+    /// The comments of an if or while statement from its start up to its (first) branch:
+    /// the comments in front of the statement and those between the tokens of its head.
+    /// If the branch is a block, the comments in front of its opening brace are added.
+    fn head_comments(
+        info: &AstInfo,
+        branch: &Option<Box<Reference<Statement>>>,
+        tokens: &[Token],
+    ) -> String {
+        let range = info.to_range();
+        branch.as_ref().map_or_else(
+            || comments(tokens, range.clone()),
+            |stmt| {
+                comments(tokens, range.start..stmt.offset + stmt.to_range().start)
+                    + &branch_block_comments(stmt, tokens)
+            },
+        )
+    }
+
+    /// If the branch is a block, the comments in front of its opening brace.
+    /// `fmt_branch` prints the braces itself, so it cannot put them there.
+    fn branch_block_comments(stmt: &Reference<Statement>, tokens: &[Token]) -> String {
+        if let Statement::Block(b) = stmt.as_ref() {
+            leading_comments(&b.info, &tokens[stmt.offset..])
+        } else {
+            String::new()
         }
     }
 
@@ -241,28 +378,40 @@ mod fmt {
                     )
                 },
                 |else_branch| {
+                    // the comments around the `else` keyword get lines of their own in front of it
+                    let if_branch_end = self.if_branch.as_ref().map_or(0, |stmt| end_of(stmt));
+                    let else_comments = comments(
+                        tokens,
+                        if_branch_end..else_branch.offset + else_branch.to_range().start,
+                    );
                     if let Reference {
                         reference: Statement::If(else_if),
                         offset,
                     } = else_branch.as_ref()
                     {
+                        let ending = if else_comments.is_empty() { ' ' } else { '\n' };
                         format!(
-                            "if ({}){}else {}",
+                            "if ({}){}{}else {}",
                             condition,
-                            fmt_branch(&self.if_branch, tokens, f, ' '),
+                            fmt_branch(&self.if_branch, tokens, f, ending),
+                            else_comments,
                             else_if.fmt(&tokens[*offset..], f),
                         )
                     } else {
+                        let else_comments =
+                            else_comments + &branch_block_comments(else_branch, tokens);
+                        let ending = if else_comments.is_empty() { ' ' } else { '\n' };
                         format!(
-                            "if ({}){}else{}",
+                            "if ({}){}{}else{}",
                             condition,
-                            fmt_branch(&self.if_branch, tokens, f, ' '),
+                            fmt_branch(&self.if_branch, tokens, f, ending),
+                            else_comments,
                             fmt_branch(&self.else_branch, tokens, f, '\n'),
                         )
                     }
                 },
             );
-            add_leading_comments(stmt, self.info.slice(tokens))
+            head_comments(&self.info, &self.if_branch, tokens) + &stmt
         }
     }
 
@@ -274,7 +423,7 @@ mod fmt {
                 condition,
                 fmt_branch(&self.statement, tokens, f, '\n')
             );
-            add_leading_comments(stmt, self.info.slice(tokens))
+            head_comments(&self.info, &self.statement, tokens) + &stmt
         }
     }
 
@@ -293,16 +442,12 @@ mod fmt {
                     // except that a space is inserted before the brackets
                     // and if there are statements inside the block,
                     // `ending` is appended instead of a newline
-                    if b.statements.is_empty() {
+                    // (the comments in front of the block are printed by the caller)
+                    let body = fmt_block_body(b, tokens, f);
+                    if body.is_empty() {
                         " {}\n".to_string()
                     } else {
-                        let stmts: String = b
-                            .statements
-                            .iter()
-                            .map(|stmt| stmt.fmt(&tokens[stmt.offset..], f))
-                            .collect();
-                        let stmts = indent(stmts, f);
-                        format!(" {{\n{}}}{}", stmts, ending)
+                        format!(" {{\n{}}}{}", indent(body, f), ending)
                     }
                 } else {
                     let stmt = indent(stmt.fmt(tokens, f), f);
